@@ -363,3 +363,38 @@ def calls_with_kw_from(repo: Repo, module: str, cls, method: str, ctor_suffix: s
                             out.append(ob(key, src in allowed_srcs, f"{ctor_suffix}({kw}={src}) at line {n.lineno}; "
                                                                     f"allowed clock expressions: {allowed_srcs}", n.lineno))
     return out
+
+
+def loop_consumes_whole_iterable(repo: Repo, module: str, cls, method: str, iter_src: str):
+    """the function has exactly one `for` / `async for` loop over `<iter_src>` and nothing leaves it early: no
+    `return` inside it and no `break` that belongs to it (a `for` loop without early exit visits every element, in
+    order - which is what "every recorded tick is replayed" means for a replay function)"""
+    fi = _method(repo, module, cls, method)
+    par = parents(fi.node)
+    loops = [n for n in ast.walk(fi.node) if isinstance(n, (ast.For, ast.AsyncFor)) and ast.unparse(n.iter) == iter_src]
+    name = f"{module}.{(cls + '.') if cls else ''}{method}"
+    if len(loops) != 1:
+        return [ob(f"{name}/whole-iterable:{iter_src}", False,
+                   f"{method}: expected exactly one loop over `{iter_src}`, found {len(loops)}", fi.lineno)]
+    loop = loops[0]
+    early = []
+    for n in ast.walk(loop):
+        if n is loop or not _inside(n, loop, par):
+            continue
+        cur, nested_def, nearest_loop = n, False, None
+        while cur is not loop:
+            cur = par[cur]
+            if isinstance(cur, (ast.FunctionDef, ast.AsyncFunctionDef, ast.Lambda)):
+                nested_def = True
+            if nearest_loop is None and isinstance(cur, (ast.For, ast.AsyncFor, ast.While)):
+                nearest_loop = cur
+        if nested_def:
+            continue
+        if isinstance(n, ast.Return) or (isinstance(n, ast.Break) and nearest_loop is loop):
+            early.append(n)
+    ok = not early
+    return [ob(f"{name}/whole-iterable:{iter_src}", ok,
+               f"{method}: the loop over `{iter_src}` (line {loop.lineno}) "
+               + ("has no early exit: every element is visited, in order" if ok else
+                  "is left early at line(s) " + ", ".join(str(e.lineno) for e in early)
+                  + " - the remaining elements are never replayed"), loop.lineno)]
